@@ -155,6 +155,9 @@ b --><a k="v&#10;w">t</a></r>`,
 	``,
 	`<r xmlns:p="urn:u1"><a p:id="7" id="3" xml:lang="en">t</a><p:b p:k="v" k="w"><c p:z="1" xmlns:q="urn:u2" q:z="2"/></p:b></r>`,
 	`<r xmlns:p="urn:u1" xmlns:q="urn:u2"><a q:id="1" p:id="2">x</a><a id="0" xml:space="preserve"> y </a></r>`,
+	// elements named like HTML void elements, with content; an entity that only HTML defines
+	`<r><link>u</link><meta>m</meta><a>1</a><br>x</br><a>2</a></r>`,
+	`<r><a>caf&eacute;</a><a>2</a></r>`,
 	// declared encodings other than UTF-8 (the bytes are in that encoding)
 	"<?xml version=\"1.0\" encoding=\"ISO-8859-1\"?><r><a id=\"\xe9\">caf\xe9</a><a>2</a></r>",
 	"<?xml version=\"1.0\" encoding=\"windows-1252\"?><r><a>\x80 5</a><a>\x93q\x94</a></r>",
